@@ -577,3 +577,13 @@ MUTATIONS += [
 MUTATIONS += [
     dict(id="C07-archiver-indexer-forgets", prop="C07", file="crates/core/src/archiver.rs", old="        let indexer = Indexer::new(be.clone()).into_shared();", new="        let indexer = Indexer::new_unindexed(be.clone()).into_shared();"),
 ]
+
+MUTATIONS += [
+    dict(id="C11-pred-type-only-dir-or-not", prop="C11", file=PA, old="p_node.node_type == node.node_type", new="p_node.is_dir() == node.is_dir()"),
+]
+
+HARMLESS += [
+    # the inode switch with the other polarity (compare inodes unless the user asked to ignore them): the statement of C11 does not
+    # mention the inode, either polarity keeps the property
+    dict(id="H-C11-inode-switch-other-polarity", prop="C11", file=PA, old="                let match_inode = !ignore_inode\n", new="                let match_inode = ignore_inode\n"),
+]
